@@ -385,6 +385,10 @@ class Inliner:
         v = vocab.get(file, {"classes": {}, "functions": {}})
         self.known_functions = set(v["functions"])
         self.known_methods = {c: set(m) for c, m in v["classes"].items()}
+        self.vocab_classes = v["classes"]
+        self.vocab_functions = v["functions"]
+        self.caller_known = set()
+        self.caller_fn = None
         self.module_helpers = {n.name: n for n in tree.body if isinstance(n, ast.FunctionDef) and n.name not in self.known_functions}
         self.counter = 0
         self.inlined = []
@@ -445,7 +449,12 @@ class Inliner:
                     # temporaries of a new helper are new by definition: fold them so that more helpers are single expressions
                     try:
                         split_tuple_assigns(hf)
-                        substitute_new_temps(hf, set(a.arg for a in hf.args.args))
+                        # (locals that carry the name of a baseline local of some method of the class are kept: code moved out
+                        # of a method into a helper then reads as it did before)
+                        base_names = set()
+                        for names in self.vocab_classes.get(node.name, {}).values():
+                            base_names |= set(names or [])
+                        substitute_new_temps(hf, set(a.arg for a in hf.args.args) | base_names)
                     except RecursionError:
                         pass
                 self.inline_properties(node, helpers)
@@ -517,9 +526,17 @@ class Inliner:
             else:
                 mapping[p] = tag + p
                 pre.append(ast.Assign(targets=[ast.Name(id=tag + p, ctx=ast.Store())], value=copy.deepcopy(vals[p])))
+        in_caller = set()
+        if self.caller_fn is not None:
+            in_caller = {n.id for n in ast.walk(self.caller_fn) if isinstance(n, ast.Name)} | {a.arg for a in self.caller_fn.args.args}
         for n in assigned:
             if n not in mapping:
-                mapping[n] = tag + n
+                if n in self.caller_known and n not in in_caller and n != RET and not n.startswith("__"):
+                    # code that was moved out of the caller into the helper keeps the name it had there: the local belongs to the
+                    # caller's baseline vocabulary and is free in the caller now, so no renaming is needed (alpha-equivalent)
+                    mapping[n] = n
+                else:
+                    mapping[n] = tag + n
         rn = _Rename(mapping, exprs)
         new_body = [rn.visit(copy.deepcopy(s)) for s in body]
         new_ret = rn.visit(copy.deepcopy(ret)) if ret is not None else None
@@ -669,6 +686,11 @@ class Inliner:
     def inline_in(self, fn, cls, helpers):
         changed = [False]
         me = self
+        self.caller_fn = fn
+        if cls is not None:
+            self.caller_known = set(self.vocab_classes.get(cls.name, {}).get(fn.name, []) or [])
+        else:
+            self.caller_known = set(self.vocab_functions.get(fn.name, []) or [])
         # nested functions (closures) defined at the top level of fn, bound once, without nonlocal/global/defaults: they read
         # the enclosing variables where they are called, so inlining them in place is the same computation
         self.local_helpers = {}
@@ -684,6 +706,25 @@ class Inliner:
         def in_block(stmts):
             out = []
             for s in stmts:
+                # X.extend(E for v in IT)  ->  for v in IT: X.append(E)      (E does not read X; no filter-free restriction needed)
+                if isinstance(s, ast.Expr) and isinstance(s.value, ast.Call) and isinstance(s.value.func, ast.Attribute) and \
+                        s.value.func.attr == "extend" and len(s.value.args) == 1 and not s.value.keywords and \
+                        isinstance(s.value.args[0], (ast.GeneratorExp, ast.ListComp)) and len(s.value.args[0].generators) == 1 and \
+                        not s.value.args[0].generators[0].is_async and simple_arg(s.value.func.value):
+                    comp = s.value.args[0]
+                    g = comp.generators[0]
+                    xs = src(s.value.func.value)
+                    calls_helper = any(isinstance(c, ast.Call) and me.match_call(c, cls, helpers)[0] is not None for c in ast.walk(comp))
+                    if calls_helper and xs not in src(comp.elt) and not any(xs in src(c) for c in g.ifs) and xs not in src(g.iter):
+                        app = ast.Expr(value=ast.Call(func=ast.Attribute(value=s.value.func.value, attr="append", ctx=ast.Load()), args=[comp.elt], keywords=[]))
+                        body = [app]
+                        for c in reversed(g.ifs):
+                            body = [ast.If(test=c, body=body, orelse=[])]
+                        loop = ast.For(target=g.target, iter=g.iter, body=body, orelse=[])
+                        ast.copy_location(loop, s)
+                        ast.fix_missing_locations(loop)
+                        s = loop
+                        changed[0] = True
                 # T = functools.reduce(F, IT, INIT)  ->  acc = INIT; for k in IT: acc = F(acc, k); T = acc     (the definition of reduce)
                 rc = s.value if isinstance(s, (ast.Assign, ast.Return)) and isinstance(getattr(s, "value", None), ast.Call) else None
                 if rc is not None and src(rc.func) in me.reduce_names and len(rc.args) == 3 and not rc.keywords and \
@@ -1218,6 +1259,22 @@ def _last_use_safe(t, name, deps):
     return False
 
 
+def _arith_only(e):
+    """Arithmetic over simple operands and np./math. functions (an argument expression the inliner had to bind to a temporary only
+    because it is not a plain designator)."""
+    for n in ast.walk(e):
+        if isinstance(n, ast.Call):
+            name = src(n.func)
+            if not (name.startswith("math.") or name in ("np.ceil", "np.floor", "np.sqrt", "np.log", "np.log2", "np.exp", "np.abs", "np.minimum",
+                                                         "np.maximum", "np.power", "np.cos", "np.sin", "abs", "min", "max", "int", "float", "len")):
+                return False        # (scalar functions only: np.array(..) and friends build objects)
+            if n.keywords:
+                return False
+        elif not isinstance(n, (ast.BinOp, ast.UnaryOp, ast.Name, ast.Attribute, ast.Constant, ast.Subscript, ast.operator, ast.unaryop, ast.expr_context)):
+            return False
+    return True
+
+
 def substitute_new_temps(fn, known_locals):
     """Forward-substitute single-assignment new locals within one statement list (straight-line region)."""
     n_sub = [0]
@@ -1232,7 +1289,7 @@ def substitute_new_temps(fn, known_locals):
                     process(b)
             if isinstance(s, ast.Assign) and len(s.targets) == 1 and isinstance(s.targets[0], ast.Name) \
                     and s.targets[0].id not in known_locals and pure_expr(s.value) and \
-                    (not s.targets[0].id.startswith("__") or (simple_arg(s.value) and not isinstance(s.value, (ast.Constant, ast.Name)))):
+                    (not s.targets[0].id.startswith("__") or ((simple_arg(s.value) or _arith_only(s.value)) and not isinstance(s.value, (ast.Constant, ast.Name)))):
                 name = s.targets[0].id
                 # single definition in the whole function, no augmented assignment
                 defs = [n for n in ast.walk(fn) if isinstance(n, ast.Name) and n.id == name and isinstance(n.ctx, (ast.Store, ast.Del))]
@@ -2310,6 +2367,234 @@ def inline_filtered_lists(fn):
     return k
 
 
+def demote_attr_accumulators(fn, known):
+    """x = ..; (loop updating x); self.A = x      ->      the loop works on self.A directly
+    for a NEW local x whose final value is copied into self.A by one top-level statement, when self.A is not mentioned before
+    that statement and nothing called before it can observe self.A (only getters, np./math. and builtins are called): on every
+    normally completing path the attribute ends with the same value and nobody saw the intermediate ones."""
+    params = {a.arg for a in fn.args.args + fn.args.kwonlyargs + fn.args.posonlyargs}
+    k = 0
+    for i, st in enumerate(list(fn.body)):
+        if not (isinstance(st, ast.Assign) and len(st.targets) == 1 and isinstance(st.targets[0], ast.Attribute) and
+                isinstance(st.targets[0].value, ast.Name) and st.targets[0].value.id == "self" and isinstance(st.value, ast.Name)):
+            continue
+        x, A = st.value.id, st.targets[0].attr
+        if x in params or x in known or x.startswith("__"):
+            continue
+        i = fn.body.index(st)
+        before = fn.body[:i]
+        after = fn.body[i + 1:]
+        if any(isinstance(n, ast.Attribute) and n.attr == A and isinstance(n.value, ast.Name) and n.value.id == "self" for t in before for n in ast.walk(t)):
+            continue
+        if any(isinstance(n, ast.Name) and n.id == x and isinstance(n.ctx, (ast.Store, ast.Del)) for t in after for n in ast.walk(t)):
+            continue
+        if not any(isinstance(n, ast.Name) and n.id == x and isinstance(n.ctx, ast.Store) for t in before for n in ast.walk(t)):
+            continue
+        if any(isinstance(n, (ast.FunctionDef, ast.Lambda, ast.ListComp, ast.GeneratorExp, ast.SetComp, ast.DictComp)) and
+               any(isinstance(m, ast.Name) and m.id == x for m in ast.walk(n)) for t in fn.body for n in ast.walk(t)):
+            continue
+        ok = True
+        for t in before:
+            for n in ast.walk(t):
+                if isinstance(n, ast.Call):
+                    name = src(n.func)
+                    if name.startswith(PURE_NS) and not name.startswith(IMPURE_NP):
+                        continue
+                    if isinstance(n.func, ast.Name) and n.func.id in PURE_CALL_NAMES:
+                        continue
+                    if isinstance(n.func, ast.Attribute) and (n.func.attr.startswith("get_") or n.func.attr in ("keys", "values", "items", "get")) and \
+                            not (isinstance(n.func.value, ast.Name) and n.func.value.id == "self"):
+                        continue
+                    ok = False
+                if isinstance(n, (ast.Return, ast.Raise, ast.Yield)):
+                    ok = False      # an exit before the copy would leave the attribute unset in the original
+        if not ok:
+            continue
+
+        class Sub(ast.NodeTransformer):
+            def visit_Name(self, n):
+                if n.id == x:
+                    return ast.copy_location(ast.Attribute(value=ast.Name(id="self", ctx=ast.Load()), attr=A, ctx=n.ctx), n)
+                return n
+        del fn.body[i]
+        for j, t in enumerate(fn.body):
+            fn.body[j] = Sub().visit(t)
+        ast.fix_missing_locations(fn)
+        k += 1
+    return k
+
+
+def _always_exits(stmts):
+    """every path through the statement list ends in return / raise"""
+    if not stmts:
+        return False
+    last = stmts[-1]
+    if isinstance(last, (ast.Return, ast.Raise)):
+        return True
+    if isinstance(last, ast.If) and last.orelse:
+        return _always_exits(last.body) and _always_exits(last.orelse)
+    return False
+
+
+def search_to_loop(fn):
+    """x = next((v for v in S if Q), None); if x is not None: BODY      (BODY leaves the function on every path, x not used later)
+       ->   for v in S: if Q: x = v; BODY
+    - next() of a filtered generator is the first element satisfying Q; the loop stops there too, because BODY exits."""
+    k = 0
+    counter = [0]
+    for blk in _blocks(fn):
+        i = 0
+        while i + 1 < len(blk):
+            a, b = blk[i], blk[i + 1]
+            i += 1
+            if not (isinstance(a, ast.Assign) and len(a.targets) == 1 and isinstance(a.targets[0], ast.Name) and isinstance(a.value, ast.Call) and
+                    isinstance(a.value.func, ast.Name) and a.value.func.id == "next" and len(a.value.args) == 2 and not a.value.keywords and
+                    isinstance(a.value.args[1], ast.Constant) and a.value.args[1].value is None and isinstance(a.value.args[0], ast.GeneratorExp)):
+                continue
+            g = a.value.args[0]
+            if len(g.generators) != 1 or g.generators[0].is_async or not isinstance(g.generators[0].target, ast.Name):
+                continue
+            gen = g.generators[0]
+            x = a.targets[0].id
+            if not (isinstance(b, ast.If) and not b.orelse and isinstance(b.test, ast.Compare) and len(b.test.ops) == 1 and
+                    isinstance(b.test.ops[0], ast.IsNot) and isinstance(b.test.left, ast.Name) and b.test.left.id == x and
+                    isinstance(b.test.comparators[0], ast.Constant) and b.test.comparators[0].value is None and _always_exits(b.body)):
+                continue
+            inside = {id(n) for n in ast.walk(a)} | {id(n) for n in ast.walk(b)}
+            if any(isinstance(n, ast.Name) and n.id == x and id(n) not in inside for n in ast.walk(fn)):
+                continue
+            if any(isinstance(n, (ast.Break, ast.Continue)) for t in b.body for n in ast.walk(t)) and _free_jumps(b.body):
+                continue
+            if not all(pure_expr(c) for c in gen.ifs) or not pure_expr(gen.iter):
+                continue
+            counter[0] += 1
+            v = gen.target.id
+            nv = "__cand%d" % counter[0] if any(isinstance(n, ast.Name) and n.id == v and id(n) not in {id(m) for m in ast.walk(g)} for n in ast.walk(fn)) else v
+            rn = _Rename({v: nv}, {})
+            elt = rn.visit(copy.deepcopy(g.elt))
+            body = [ast.Assign(targets=[ast.Name(id=x, ctx=ast.Store())], value=elt)] + b.body
+            for c in reversed(gen.ifs):
+                body = [ast.If(test=rn.visit(copy.deepcopy(c)), body=body, orelse=[])]
+            loop = ast.For(target=ast.Name(id=nv, ctx=ast.Store()), iter=gen.iter, body=body, orelse=[])
+            ast.copy_location(loop, a)
+            ast.fix_missing_locations(loop)
+            blk[i - 1:i + 1] = [loop]
+            k += 1
+    return k
+
+
+def _pure_search_body(stmts):
+    """A loop body that either leaves the function or does nothing: nested `if <pure test>:` whose other statements always end in
+    return / raise (falling through it has no effect at all)."""
+    for t in stmts:
+        if isinstance(t, ast.If) and not t.orelse and pure_expr(t.test):
+            if _always_exits(t.body):
+                continue
+            if not _pure_search_body(t.body):
+                return False
+        else:
+            return False
+    return True
+
+
+def _merge_bodies(b1, b2):
+    if len(b1) == 1 and len(b2) == 1 and isinstance(b1[0], ast.If) and isinstance(b2[0], ast.If) and not b1[0].orelse and not b2[0].orelse and \
+            src(b1[0].test) == src(b2[0].test) and not _always_exits(b1[0].body):
+        m = ast.If(test=b1[0].test, body=_merge_bodies(b1[0].body, b2[0].body), orelse=[])
+        return [ast.copy_location(m, b1[0])]
+    return b1 + b2
+
+
+def fuse_search_loops(fn):
+    """for v in C: SEARCH(v)   [M]   for w in C: WORK(w)      ->      M; for v in C: SEARCH(v); WORK(v)
+    where SEARCH either leaves the function or has no effect (pure tests), M are plain assignments of locals that SEARCH never
+    mentions, and WORK only reads state and writes locals that SEARCH never mentions, without break / continue / return: when
+    the first loop falls through, every SEARCH test was false, so interleaving the two loops changes nothing; when it exits at
+    some element, the work done on earlier elements only touched locals that are dead at that exit."""
+    k = 0
+    again = True
+    while again:
+        again = False
+        for blk in _blocks(fn):
+            for i, L1 in enumerate(blk):
+                if not (isinstance(L1, ast.For) and not L1.orelse and isinstance(L1.target, ast.Name) and _pure_search_body(L1.body) and pure_expr(L1.iter)):
+                    continue
+                j = i + 1
+                while j < len(blk) and isinstance(blk[j], ast.Assign) and all(isinstance(t, ast.Name) for t in blk[j].targets) and pure_expr(blk[j].value):
+                    j += 1
+                if j >= len(blk):
+                    continue
+                L2 = blk[j]
+                if not (isinstance(L2, ast.For) and not L2.orelse and isinstance(L2.target, ast.Name) and src(L2.iter) == src(L1.iter)):
+                    continue
+                M = blk[i + 1:j]
+                names1 = {n.id for n in ast.walk(L1) if isinstance(n, ast.Name)}
+                m_targets = {t.id for a in M for t in a.targets}
+                if m_targets & names1:
+                    continue
+                w2 = set()
+                okw = True
+                for t in L2.body:
+                    w = writes_of(t)
+                    if "<state>" in w or "<heap>" in w or any(x.startswith("<heap") for x in w):
+                        okw = False
+                    w2 |= {x for x in w if not x.startswith("<")}
+                if not okw or any(isinstance(n, (ast.Break, ast.Continue, ast.Return, ast.Raise, ast.Yield)) for t in L2.body for n in ast.walk(t)):
+                    continue
+                w2 -= {L2.target.id}
+                if w2 & names1:
+                    continue
+                if any("." in x or "[" in x for x in w2):
+                    continue
+                # the loop variables: the second loop's variable is renamed to the first's (it must not be read after the loops)
+                v1, v2 = L1.target.id, L2.target.id
+                if v1 != v2 and v1.startswith("__") and not v2.startswith("__") and not any(isinstance(n, ast.Name) and n.id == v2 for n in ast.walk(L1)) and \
+                        not any(isinstance(n, ast.Name) and n.id == v1 and not any(n is m for m in ast.walk(L1)) for n in ast.walk(fn)):
+                    # keep the name the code itself uses for the element
+                    L1.body = [_Rename({v1: v2}, {}).visit(t) for t in L1.body]
+                    L1.target = ast.copy_location(ast.Name(id=v2, ctx=ast.Store()), L1.target)
+                    v1 = v2
+                if v1 != v2:
+                    after_ids = {id(n) for t in blk[j + 1:] for n in ast.walk(t)}
+                    if any(isinstance(n, ast.Name) and n.id == v2 and isinstance(n.ctx, ast.Load) and id(n) in after_ids for n in ast.walk(fn)):
+                        continue
+                    if any(isinstance(n, ast.Name) and n.id == v1 for n in ast.walk(L2)):
+                        continue
+                    body2 = [_Rename({v2: v1}, {}).visit(copy.deepcopy(t)) for t in L2.body]
+                else:
+                    body2 = L2.body
+                L1.body = _merge_bodies(L1.body, body2)
+                ast.fix_missing_locations(L1)
+                blk[i:j + 1] = M + [L1]
+                k += 1
+                again = True
+                break
+            if again:
+                break
+    return k
+
+
+def merge_same_branches(fn):
+    """if A: S elif B: S [else: R]   ->   if A or B: S [else: R]      (identical branch bodies; short-circuit evaluation is the same)"""
+    k = 0
+    again = True
+    while again:
+        again = False
+        for n in ast.walk(fn):
+            if isinstance(n, ast.If) and len(n.orelse) == 1 and isinstance(n.orelse[0], ast.If):
+                inner = n.orelse[0]
+                if [src(t) for t in n.body] == [src(t) for t in inner.body]:
+                    vals = (n.test.values if isinstance(n.test, ast.BoolOp) and isinstance(n.test.op, ast.Or) else [n.test]) + \
+                           (inner.test.values if isinstance(inner.test, ast.BoolOp) and isinstance(inner.test.op, ast.Or) else [inner.test])
+                    n.test = ast.copy_location(ast.BoolOp(op=ast.Or(), values=vals), n.test)
+                    n.orelse = inner.orelse
+                    ast.fix_missing_locations(n)
+                    k += 1
+                    again = True
+                    break
+    return k
+
+
 def _free_jumps(stmts):
     """break / continue statements in stmts that are not inside a loop of stmts"""
     for t in stmts:
@@ -3052,7 +3337,10 @@ def normalize_tree(file, tree, vocab):
             t0 += fold_none_tests(f, cname)
             t0 += seed_list_literals(f)
             t0 += argsort_to_sorted(f)
+            t0 += merge_same_branches(f)
+            t0 += search_to_loop(f)
             t0 += inline_filtered_lists(f)
+            t0 += fuse_search_loops(f)
             t0 += last_element_reads(f)
             t0 += scalarise_tuple_temps(f)
             t0 += coalesce_copies(f)
@@ -3075,6 +3363,9 @@ def normalize_tree(file, tree, vocab):
                 fu = forward_unpack_targets(f, known | set(a.arg for a in f.args.args))
                 if fu:
                     log.append("%s.%s: %d unpacked value(s) stored directly" % (cname, f.name, fu))
+                da = demote_attr_accumulators(f, known)
+                if da:
+                    log.append("%s.%s: %d local accumulator(s) copied into an attribute at the end read as that attribute" % (cname, f.name, da))
                 sw = split_webs(f, known | set(a.arg for a in f.args.args))
                 if sw:
                     log.append("%s.%s: %d new local(s) split into independent variables" % (cname, f.name, sw))
